@@ -167,7 +167,7 @@ fn real_main() -> i32 {
             syms.push(s.to_string());
         }
         let alpha: Vec<&str> = syms.iter().map(|s| s.as_str()).collect();
-        let n = ctx.tier.pick(3usize, 4usize);
+        let n = 3usize;
         strings::all_strings(&ctx, &mut total, &tys, "parse/ascii", &alpha, 0, n, &format!("all strings of 0..={n} symbols over all 128 ASCII characters plus U+00E9, U+20AC, U+1D7D8, U+FF46 (fullwidth f), U+0663 (Arabic-Indic three), through all 10 FromStr impls"));
     }
     strings::edits(&ctx, &mut total, &tys);
